@@ -225,6 +225,16 @@ def check(chk: Check) -> None:
                     if o != ('sub', ('attr', selft2, scopes), ('const', -1)):
                         chk.bad(R1, fq + ' :: `%s`' % e.text(), '%s:%d' % (F.func(fq).module.rel, e.line),
                                 'writes into a scope that is not the top one')
+                # folding the scopes with an in-place operator (reduce(operator.ior, scopes) without an initial value) updates the
+                # first of them: the host's mapping receives the bindings of every frame above it
+                if e.kind == 'call' and selft2 and freeze(e.func) == ('ref', 'ext', 'functools.reduce') and 2 <= len(e.args) <= 2:
+                    f0, xs = freeze(e.args[0]), freeze(e.args[1])
+                    if isinstance(f0, tuple) and f0[:2] == ('ref', 'ext') and f0[2].startswith('operator.i') and f0[2] not in (
+                            'operator.index', 'operator.inv', 'operator.invert', 'operator.is_', 'operator.is_not', 'operator.itemgetter') \
+                            and om.mentions(xs, ('attr', selft2, scopes)):
+                        chk.bad(R1, fq + ' :: `%s`' % e.text(), '%s:%d' % (F.func(fq).module.rel, e.line),
+                                '%s updates its left operand in place and reduce() without an initial value starts with the first scope: that '
+                                'scope (the host mapping, when the builtins are left out) receives the bindings of all the others' % f0[2])
 
     _r2(chk, R2, scopes)
     _r3(chk, R3)
